@@ -413,10 +413,24 @@ fn close_store(st: Store, dir: &Path, cs: &mut CloseStats) {
             }
         },
         Store::Lmdb(s) => {
-            // heed keeps one environment per path and process; `prepare_for_closing`
-            // lets us wait for the real mdb_env_close before opening the path again.
-            let ev = s.handle().env().clone().prepare_for_closing();
+            // heed keeps one environment per path and process (datacake-lmdb itself never
+            // closes it); `prepare_for_closing` lets us wait for the real mdb_env_close before
+            // opening the path again.  The close is OUR doing, so we have to do it safely: the
+            // backend's task thread holds a clone of the environment and a thread-local LMDB
+            // reader slot; if the last clone were dropped here while that thread is still
+            // exiting, mdb_env_close would unmap the lock file under the thread-exit destructor
+            // of the reader slot (seen once as SIGSEGV in mdb_env_reader_dest, under load).  So
+            // we keep a clone until the task thread is gone and only then drop the last one.
+            let env = s.handle().env().clone();
+            let ev = env.clone().prepare_for_closing();
+            let threads = || std::fs::read_dir("/proc/self/task").map(|d| d.count()).unwrap_or(0);
+            let before = threads();
             drop(s);
+            let t0 = Instant::now();
+            while threads() >= before && t0.elapsed() < Duration::from_secs(5) {
+                std::thread::sleep(Duration::from_micros(100));
+            }
+            drop(env);
             if ev.wait_timeout(Duration::from_secs(5)) {
                 cs.lmdb_close_seen += 1;
             } else {
